@@ -60,11 +60,30 @@ func execute(sc Scenario, prefix []int, rng *rand.Rand) *RunResult {
 			}
 			if stuck > 0 {
 				// goroutines blocked in uninstrumented code (bbolt, sync.Once, a channel): give them a chance to arrive
-				vs.WaitStuck(100 * time.Millisecond)
-				if _, stuck2 := vs.Live(); stuck2 < stuck {
+				// (an fsync or a page fault can take long when the machine is loaded: a deadlock is declared only
+				// after 3 s without any of them arriving)
+				arrived := false
+				for w := 0; w < 30 && !arrived; w++ {
+					vs.WaitStuck(100 * time.Millisecond)
+					if _, stuck2 := vs.Live(); stuck2 < stuck {
+						arrived = true
+					}
+				}
+				if arrived {
 					disabled = map[int]bool{}
 					continue
 				}
+			}
+			// a goroutine that was running late may have parked between the two observations above: with nothing
+			// stuck any more the set of parked goroutines is stable, so look again before concluding
+			again := false
+			for _, id := range vs.Enabled() {
+				if !disabled[id] {
+					again = true
+				}
+			}
+			if again {
+				continue
 			}
 			res.Deadlock = true
 			break
